@@ -11,6 +11,7 @@ CONSTANTS
     SnapshotOnPush = TRUE
     WithLazy = TRUE
     WithCurrent = TRUE
+    CtxForms <- MC_Forms
     Panics = TRUE
     Emit = FALSE
 VIEW tview
